@@ -509,10 +509,27 @@ def r10_5(ctx, counts, spec) -> RuleResult:
     ev = rec.method('evaluate')
     assert ev is not None
     txt = [stmt_text(n) for n in walk_local(ev.func.node) if isinstance(n, ast.Call)]
-    inst = any(t.startswith('token_class(self.parser') for t in txt)
-    lookup = any('self.parser.symbol_table[' in stmt_text(n)
-                 for n in walk_local(ev.func.node) if isinstance(n, ast.Subscript))
-    casts = any(t.endswith('.cast(arg)') or '.cast(' in t for t in txt)
+
+    def has_lookup(node: ast.AST) -> bool:
+        return any(isinstance(n, ast.Subscript) and stmt_text(n.value).endswith('symbol_table')
+                   for n in ast.walk(node))
+    # helpers of the same module that look the token class up in the symbol table and return it
+    lookup_helpers = {g.name for g in ev.func.module.functions.values()
+                      if g.parent is None and g is not ev.func and has_lookup(g.node)
+                      and any(isinstance(r_, ast.Return) and r_.value is not None
+                              for r_ in walk_local(g.node))}
+    class_names = set()
+    for n in walk_local(ev.func.node):
+        if isinstance(n, (ast.Assign, ast.AnnAssign)) and n.value is not None:
+            v = n.value
+            if has_lookup(v) or any(isinstance(c_, ast.Call) and dotted(c_.func) in lookup_helpers
+                                    for c_ in ast.walk(v)):
+                class_names |= {t.id for t in (n.targets if isinstance(n, ast.Assign)
+                                               else [n.target]) if isinstance(t, ast.Name)}
+    lookup = bool(class_names)
+    inst = any(isinstance(n, ast.Call) and isinstance(n.func, ast.Name) and n.func.id in class_names
+               for n in walk_local(ev.func.node))
+    casts = any('.cast(' in t for t in txt)
     res.instances.append(f'{ev.func.key}: symbol_table lookup={lookup} instantiates={inst} '
                          f'calls .cast={casts}')
     if inst and lookup and casts:
